@@ -74,6 +74,20 @@ def check(chk):
         for st in body:
             if isinstance(st, ast.Assign) and isinstance(st.targets[0], ast.Name):
                 asg.setdefault(st.targets[0].id, []).append(st)
+        # `v = E1` followed by `if v is None: v = E2` is the statement form of `v = E1 if E1 is not None else E2`
+        for i_, st in enumerate(body[:-1]):
+            nx = body[i_ + 1]
+            if isinstance(st, ast.Assign) and len(st.targets) == 1 and isinstance(st.targets[0], ast.Name) and isinstance(nx, ast.If) and not nx.orelse and len(nx.body) == 1 \
+                    and src(nx.test) == '%s is None' % st.targets[0].id and isinstance(nx.body[0], ast.Assign) and src(nx.body[0].targets[0]) == st.targets[0].id \
+                    and len(asg.get(st.targets[0].id, [])) == 1:
+                merged = ast.Assign(targets=st.targets, value=ast.IfExp(test=ast.Compare(left=st.value, ops=[ast.IsNot()], comparators=[ast.Constant(value=None)]),
+                                                                         body=st.value, orelse=nx.body[0].value))
+                ast.copy_location(merged, st)
+                ast.fix_missing_locations(merged)
+                from ..core import parent as _parent46
+                merged._verif_parent = getattr(st, '_verif_parent', None)
+                asg[st.targets[0].id] = [merged]
+                asg.setdefault('__origin__', {})[id(merged)] = st
         for var, (sattr, pexpr, lexpr, falsy_ok) in sorted(OPTIONS.items()):
             sts = asg.get(var, [])
             if len(sts) != 1:
@@ -95,7 +109,7 @@ def check(chk):
                 if got is not want and got != want:
                     bad.append('statement.%s=%r -> %r (want %r)' % (sattr, sv, got, want))
             names = set(src(x) for x in ast.walk(e) if isinstance(x, ast.Attribute))
-            chk.judge(not bad and default_text in names, 'C46.precedence', sts[0], '%s arm: %s = statement.%s if set else %s, over %d statement values' % (armname, var, sattr, default_text, len(domain)),
+            chk.judge(not bad and default_text in names, 'C46.precedence', asg.get('__origin__', {}).get(id(sts[0]), sts[0]), '%s arm: %s = statement.%s if set else %s, over %d statement values' % (armname, var, sattr, default_text, len(domain)),
                       '`%s` loses a statement-level setting: %s' % (src(sts[0]), '; '.join(bad)) if bad else 'default source is not %s' % default_text)
         for var, (pexpr, lexpr) in sorted(PLAIN.items()):
             sts = asg.get(var, [])
@@ -151,8 +165,11 @@ def check(chk):
             'prepared_statement': 'prepared_statement', 'speculative_execution_plan': 'spec_exec_plan', 'continuous_paging_state': 'continuous_paging_state', 'host': 'host'}
     wrong = dict((k, (b or {}).get(k)) for k, v in want.items() if (b or {}).get(k) != v)
     chk.judge(b is not None and not wrong, 'C46.carried', rfc[0] if rfc else f, 'ResponseFuture(...): %s' % ', '.join('%s=%s' % kv for kv in sorted(want.items())), 'the future does not get the effective options: %s' % wrong)
-    sp = [st for st in f.body if isinstance(st, ast.Assign) and src(st.targets[0]) == 'spec_exec_plan']
-    chk.judge(len(sp) == 1 and src(sp[0].value) == 'spec_exec_policy.new_plan(query.keyspace or self.keyspace, query) if query.is_idempotent and spec_exec_policy else None', 'C46.carried', f,
+    from ..sem import guarded_creations
+    made, other = guarded_creations(f, 'spec_exec_plan', 'new_plan')
+    oksp = len(made) == 1 and src(made[0][0].func.value) == 'spec_exec_policy' and [src(a) for a in made[0][0].args] == ['query.keyspace or self.keyspace', 'query'] \
+        and set(['query.is_idempotent', 'spec_exec_policy']) <= made[0][1] and all(isinstance(o, ast.Constant) and o.value is None for o in other)
+    chk.judge(oksp, 'C46.carried', f,
               'speculative plan from the effective policy, only for idempotent statements', 'speculative plan derivation changed')
     # ResponseFuture stores them
     s = src(rfi)
